@@ -251,6 +251,7 @@ package ristretto
 // Everything the policy mutex guards, and the invariant every critical section
 // re-establishes before it releases the mutex (checked at every Unlock).
 //@ lockinv [C03,C08] defaultPolicy.Mutex (p): p.admit != nil && wfTiny(p.admit) && wfLFU(p.evict) && z.GcMaskOK()
+//@ rely p.evict.used == old(p.evict.used) && forall k uint64 :: gcHas(p.evict.keyCosts, k) == old(gcHas(p.evict.keyCosts, k)) && p.evict.keyCosts[k] == old(p.evict.keyCosts[k])
 //@ guards p.evict.used, p.evict.keyCosts[*], p.admit.incrs, z.GcBloomBits(p.admit.door)[*], p.admit.door.ElemNum, p.admit.freq.rows[0][*], p.admit.freq.rows[1][*], p.admit.freq.rows[2][*], p.admit.freq.rows[3][*]
 
 //@ func (p *defaultPolicy) Has(key uint64) bool
@@ -375,6 +376,7 @@ package ristretto
 //@ spec conflictOK[V any](e storeItem[V], conflict uint64) bool = conflict == 0 || conflict == e.conflict
 
 //@ lockinv [C01,C08] lockedMap.RWMutex (m): m.data != nil && forall k uint64 :: gcHas(m.data, k) ==> m.data[k].key == k
+//@ rely gcSameRef(m.data, old(m.data)) && forall k uint64 :: gcHas(m.data, k) ==> old(gcHas(m.data, k))
 //@ guards m.data, m.data[*]
 
 //@ func (m *lockedMap) get(key, conflict uint64) (V, bool)
@@ -432,12 +434,13 @@ package ristretto
 //@ decl implements store = shardedMap
 //@ decl implements ringConsumer = defaultPolicy
 
-//@ spec wfSharded[V any](sm *shardedMap[V]) bool = sm != nil && len(sm.shards) == 256 && (forall i int :: 0 <= i && i < 256 ==> sm.shards[i] != nil && gcAllocated(sm.shards[i]) && sm.shards[i].em == sm.expiryMap) && forall i, j int :: 0 <= i && i < j && j < 256 ==> sm.shards[i] != sm.shards[j]
-//@ spec shardOf[V any](sm *shardedMap[V], key uint64) *lockedMap[V] = sm.shards[key%numShards]
+//@ spec wfSharded[V any](sm *shardedMap[V]) bool = sm != nil && len(sm.shards) == 256 && (forall i int :: 0 <= i && i < 256 ==> sm.shards[i] != nil && gcAllocated(sm.shards[i]) && sm.shards[i].em == sm.expiryMap) && forall i, j int :: 0 <= i && i < j && j < 256 ==> sm.shards[i] != sm.shards[j] && !gcSameRef(sm.shards[i].data, sm.shards[j].data)
+//@ spec opaque shardOf[V any](sm *shardedMap[V], key uint64) *lockedMap[V] = sm.shards[key%numShards]
 //@ spec smHas[V any](sm *shardedMap[V], key uint64) bool = gcHas(shardOf(sm, key).data, key)
 //@ spec smEntry[V any](sm *shardedMap[V], key uint64) storeItem[V] = shardOf(sm, key).data[key]
 
 //@ func (sm *shardedMap) Get(key, conflict uint64) (V, bool)
+//@   reveal shardOf
 //@   lockof shardOf(sm, key)
 //@   requires wfSharded(sm)
 //@   ensures [C01] #stored result1 ==> smHas(sm, key) && gcSameRef(result0, smEntry(sm, key).value) && conflictOK(smEntry(sm, key), conflict) && smEntry(sm, key).key == key
@@ -445,11 +448,13 @@ package ristretto
 //@   ensures [C07] #notearly !result1 && smHas(sm, key) && conflictOK(smEntry(sm, key), conflict) ==> !entryLive(smEntry(sm, key), gcNow())
 
 //@ func (sm *shardedMap) Expiration(key uint64) time.Time
+//@   reveal shardOf
 //@   lockof shardOf(sm, key)
 //@   requires wfSharded(sm)
 //@   ensures [C07] result == smEntry(sm, key).expiration && (!smHas(sm, key) ==> result.IsZero())
 
 //@ func (sm *shardedMap) Set(i *Item[V])
+//@   reveal shardOf
 //@   lockof shardOf(sm, i.Key)
 //@   requires wfSharded(sm) && bucketDurationSecs > 0
 //@   modifies shardOf(sm, i.Key).data[*], sm.expiryMap.buckets[*], sm.expiryMap.buckets[*][*]
@@ -459,6 +464,7 @@ package ristretto
 //@   ensures [C13] #insert i != nil && !old(smHas(sm, i.Key)) ==> smHas(sm, i.Key) && isItem(smEntry(sm, i.Key), i)
 
 //@ func (sm *shardedMap) Del(key, conflict uint64) (uint64, V)
+//@   reveal shardOf
 //@   lockof shardOf(sm, key)
 //@   requires wfSharded(sm) && bucketDurationSecs > 0
 //@   modifies shardOf(sm, key).data[*], sm.expiryMap.buckets[*][*]
@@ -467,6 +473,7 @@ package ristretto
 //@   ensures [C01,C02] #kept !(old(smHas(sm, key)) && conflictOK(old(smEntry(sm, key)), conflict)) ==> smHas(sm, key) == old(smHas(sm, key)) && sameEntry(smEntry(sm, key), old(smEntry(sm, key))) && result0 == 0 && gcSameRef(result1, zeroValue[V]())
 
 //@ func (sm *shardedMap) DelExpired(key, conflict uint64, now time.Time) (V, time.Time, bool)
+//@   reveal shardOf
 //@   lockof shardOf(sm, key)
 //@   requires wfSharded(sm) && bucketDurationSecs > 0
 //@   modifies shardOf(sm, key).data[*], sm.expiryMap.buckets[*][*]
@@ -476,6 +483,7 @@ package ristretto
 //@   ensures [C14] #kept !result2 ==> smHas(sm, key) == old(smHas(sm, key)) && sameEntry(smEntry(sm, key), old(smEntry(sm, key)))
 
 //@ func (sm *shardedMap) Update(newItem *Item[V]) (V, bool)
+//@   reveal shardOf
 //@   lockof shardOf(sm, newItem.Key)
 //@   requires wfSharded(sm) && newItem != nil && bucketDurationSecs > 0
 //@   modifies shardOf(sm, newItem.Key).data[*], sm.expiryMap.buckets[*], sm.expiryMap.buckets[*][*]
@@ -602,5 +610,13 @@ package ristretto
 //@   loop 1 invariant #slice gcFresh(buckets) || cap(buckets) == 0
 //@   loop 2 modifies allmaps(store.(*shardedMap[V]).shards[0].data), m.buckets[*], m.buckets[*][*], policy.evict.used, policy.evict.keyCosts[*], gcMtot[*]
 //@   loop 3 modifies allmaps(store.(*shardedMap[V]).shards[0].data), m.buckets[*], m.buckets[*][*], policy.evict.used, policy.evict.keyCosts[*], gcMtot[*]
+//@   loop 2 invariant #shrinkM forall k uint64 :: smHas(store.(*shardedMap[V]), k) ==> old(smHas(store.(*shardedMap[V]), k))
+//@   loop 2 invariant #shrinkP forall k uint64 :: gcHas(policy.evict.keyCosts, k) ==> old(gcHas(policy.evict.keyCosts, k))
+//@   loop 2 invariant #agree forall k uint64 :: smHas(store.(*shardedMap[V]), k) && old(gcHas(policy.evict.keyCosts, k)) ==> gcHas(policy.evict.keyCosts, k)
+//@   loop 3 invariant #shrinkM forall k uint64 :: smHas(store.(*shardedMap[V]), k) ==> old(smHas(store.(*shardedMap[V]), k))
+//@   loop 3 invariant #shrinkP forall k uint64 :: gcHas(policy.evict.keyCosts, k) ==> old(gcHas(policy.evict.keyCosts, k))
+//@   loop 3 invariant #agree forall k uint64 :: smHas(store.(*shardedMap[V]), k) && old(gcHas(policy.evict.keyCosts, k)) ==> gcHas(policy.evict.keyCosts, k)
 //@   at call onEvict#1 assert [C14] #reported ok && !expr.IsZero() && !expr.After(now) && !smHas(store.(*shardedMap[V]), key)
 //@   ensures [C14] #frontier-advanced m != nil ==> m.lastCleanedBucketNum == cleanupBucket(gcNow())
+//@   ensures [C13] #shrinkM m != nil ==> forall k uint64 :: smHas(store.(*shardedMap[V]), k) ==> old(smHas(store.(*shardedMap[V]), k))
+//@   ensures [C13] #agree m != nil ==> forall k uint64 :: smHas(store.(*shardedMap[V]), k) && old(gcHas(policy.evict.keyCosts, k)) ==> gcHas(policy.evict.keyCosts, k)
